@@ -222,8 +222,16 @@ func TestC10(t *testing.T) {
 			for i, n := 0, rapid.IntRange(0, 2).Draw(rt, kind+"-extra"); i < n; i++ {
 				m[hexsha(kind+tn+drawAcc(rt, kind+"-member").Bech)] = fmt.Sprintf("k%d", i+1)
 			}
-			if rapid.IntRange(0, 19).Draw(rt, kind+"-bad") == 0 {
+			if rapid.IntRange(0, 5).Draw(rt, kind+"-idAsValue") == 0 {
+				// somebody's access id appears in the list as a *value* (a key blob), under a key that is nobody's id
+				m["pending-invite"] = hexsha(kind + tn + drawAcc(rt, kind+"-invited").Bech)
+			}
+			switch rapid.IntRange(0, 29).Draw(rt, kind+"-bad") {
+			case 0:
 				return rapid.SampledFrom([]string{"not json", "[]", `{"a":1}`, "null"}).Draw(rt, kind+"-badacl")
+			case 1: // valid JSON of another shape that mentions a member's id: it grants nothing
+				id := hexsha(kind + tn + drawAcc(rt, kind+"-listed").Bech)
+				return rapid.SampledFrom([]string{`["` + id + `"]`, `{"ids":["` + id + `"]}`, `"` + id + `"`, `{"x":{"` + id + `":"k"}}`}).Draw(rt, kind+"-shape")
 			}
 			return aclJSON(m)
 		}
@@ -240,7 +248,11 @@ func TestC10(t *testing.T) {
 				default:
 					ids = append(ids, hexsha(kind+tn+drawAcc(rt, "member").Bech))
 				}
-				keys = append(keys, fmt.Sprintf("key%d", i))
+				if rapid.IntRange(0, 5).Draw(rt, "idAsKeyBlob") == 0 { // the key blob handed over is itself some member's access id
+					keys = append(keys, hexsha(kind+tn+drawAcc(rt, "blobMember").Bech))
+				} else {
+					keys = append(keys, fmt.Sprintf("key%d", i))
+				}
 			}
 			if rapid.IntRange(0, 14).Draw(rt, "fewerKeys") == 0 && len(keys) > 1 {
 				keys = keys[:len(keys)-1]
